@@ -22,13 +22,13 @@ META = {
     "decided by substituting g for the agent's state terms (continuous state = node, discrete state = label) and comparing the "
     "two terms, with the entries of V[t+1] replaced by the same fresh constants on both sides (they are syntactically unique "
     "tagged terms); fully discrete models are covered in every period.",
-    "bounds": "templates TA, TB, TC, TD, TH (fully discrete), TM, TJ with 1-2 agents and T = 2 (thorough 3)",
+    "bounds": "templates TA, TB, TC, TD, TH (fully discrete), TM, TJ, TF (period-dependent filter, 3 periods) with 1-2 agents and T = 2 (thorough 3)",
     "outside": "off-grid states (the property is about on-grid states); more agents/periods",
     "assumptions": ["as C01/C02"],
     "stubs": [],
 }
 
-QUICK = [(("TA", dict(T=2)), 2), (("TB", dict(T=2)), 2), (("TC", dict(T=2, nw=3, nc=2)), 2), (("TD", dict(T=2, nw=3)), 1), (("TH", dict(T=3)), 3), (("TM", dict(T=2)), 1), (("TJ", dict(T=2)), 2)]
+QUICK = [(("TA", dict(T=2)), 2), (("TB", dict(T=2)), 2), (("TC", dict(T=2, nw=3, nc=2)), 2), (("TD", dict(T=2, nw=3)), 1), (("TH", dict(T=3)), 3), (("TM", dict(T=2)), 1), (("TJ", dict(T=2)), 2), (("TF", dict(T=3)), 2), (("TP", dict(T=3)), 2)]
 THOROUGH = QUICK + [(("TC", dict(T=3, nw=3, nc=2)), 2), (("TD", dict(T=2, nw=3)), 2), (("TN", dict(T=2)), 2), (("TA", dict(T=3)), 2), (("TG", dict(T=2)), 1)]
 
 
